@@ -61,6 +61,25 @@ func cmpDoc(d *refjson.Doc, o geojson.Object, circles bool) error {
 		if !sameF(p.X, d.Points[0].X) || !sameF(p.Y, d.Points[0].Y) {
 			return fmt.Errorf("point is (%v,%v), document says (%v,%v)", p.X, p.Y, d.Points[0].X, d.Points[0].Y)
 		}
+		// the third ordinate through the accessors
+		z, isPt := geojson.IsPoint(o)
+		wantZ := 0.0
+		if len(d.Points[0].Extra) > 0 {
+			wantZ = d.Points[0].Extra[0]
+		}
+		if !isPt {
+			return fmt.Errorf("IsPoint is false for a decoded Point")
+		}
+		if pt, ok := o.(*geojson.Point); ok {
+			if !sameF(pt.Z(), wantZ) || !sameF(z, wantZ) {
+				return fmt.Errorf("point Z()=%v IsPoint z=%v, document says %v", pt.Z(), z, wantZ)
+			}
+			if pt.IsSimple() && len(d.Points[0].Extra) > 0 {
+				return fmt.Errorf("IsSimple() is true for a point with %d ordinates", 2+len(d.Points[0].Extra))
+			}
+		} else if len(d.Points[0].Extra) > 0 {
+			return fmt.Errorf("a point with %d ordinates was decoded as a SimplePoint", 2+len(d.Points[0].Extra))
+		}
 	case "LineString":
 		v, ok := o.(*geojson.LineString)
 		if !ok {
